@@ -583,8 +583,9 @@ def evidence_info():
         "rule": (
             "one evaluation = one seeded history: 1-3 callers interleaved at operation boundaries build 3-12 combinations "
             "(operator and class call), spec-list folds and container parts from ONE shared pool of condition objects; after "
-            "every step every pool entry is compared with a Boolean model on 2-5 probe documents and all older entries' "
-            "digests must be unchanged. distinct = distinct (world, programs, interleaving) digests; non-trivial = the history "
+            "every step every pool entry is compared with a Boolean model on 2-6 probe documents and all older entries' "
+            "digests must be unchanged. Container parts are built from pool entries only as *users* of them (operands must come out unaltered; what a part selects is C03's); "
+            "Key-with-Index combinations are outside the statement and nothing is demanded of them. distinct = distinct (world, programs, interleaving) digests; non-trivial = the history "
             "uses at least one operand that an earlier operation already used (operand reuse after combination)."
         ),
         "components": {
